@@ -187,6 +187,6 @@ def create_symbol(rep):
             elif name == "#sup":
                 return _clingo.Supremum
             elif len(name) > 1 and name.startswith('"') and name.endswith('"'):
-                return _clingo.String(name[1:-1])
+                return _clingo.parse_term(name)
         return _clingo.Function(name, [create_symbol(arg) for arg in args])
 
